@@ -50,6 +50,7 @@ class Sched:
         name = self.names.get(threading.get_ident())
         with self.cv:
             self.done.add(name)
+            self.names.pop(threading.get_ident(), None)  # calls made after this point (close()) are not scheduled
             self.cv.notify_all()
 
     def drive(self, actors, timeout=90):
@@ -319,7 +320,7 @@ def main(tier, seed, replay=None):
     ck.coq()
     import tracecheck
     tracecheck.check_traces(ck, ck.pid, names=tracecheck.MONO_SCENARIOS)
-    n = 120 if tier == 'quick' else 4000
+    n = 300 if tier == "quick" else 8000
     cases = gen_cases(ck.rng, n, tier)
     with ThreadPoolExecutor(common.NPROC) as ex:
         results = list(ex.map(_child, cases))
